@@ -328,6 +328,13 @@ func classify(c *facet.Ctx, in Input, data []byte, r Resp, needChanged bool) {
 }
 
 var debugSlow = os.Getenv("VERIF_C17_DEBUGSLOW") != ""
+var debugSlowMin = func() time.Duration {
+	d, err := time.ParseDuration(os.Getenv("VERIF_C17_DEBUGSLOW"))
+	if err != nil {
+		return 200 * time.Millisecond
+	}
+	return d
+}()
 
 // check is the Check function of every facet.
 func check(needChanged bool) func(c *facet.Ctx, in Input) error {
@@ -345,7 +352,7 @@ func check(needChanged bool) func(c *facet.Ctx, in Input) error {
 		}
 		t0 := time.Now()
 		r := Call(Req{Dec: in.Decoder, Type: in.Type, Data: data})
-		if debugSlow && time.Since(t0) > 200*time.Millisecond {
+		if debugSlow && time.Since(t0) > debugSlowMin {
 			fmt.Fprintf(os.Stderr, "SLOW %v %s len=%d ops=%v alloc=%d outcome=%s\n", time.Since(t0), in.Decoder, len(data), in.Ops, r.Alloc, r.Outcome)
 		}
 		if f := Evaluate(in, data, r); f != nil {
